@@ -278,6 +278,9 @@ mod sx {
         "##.generic",
         "*$removeparam=utm",
         "||x.com^$removeparam=ref",
+        // a rewriting rule that needs a compiled regex, for two URLs of equal length that differ in
+        // whether it applies (28 / 29 below)
+        "||q.com/r*a/p$removeparam=sid",
         "@@||gh.com^$generichide",
         "gh.com##.own",
         "||gh.com^$csp=d3",
@@ -343,6 +346,7 @@ mod sx {
         // requests that visit two / three regex rules at once (26, 27): only the last pattern of the
         // path matches, the buckets of the others are visited on the way
         "https://x.com/rex1/rex2/1hh/rex2/2gg", "https://x.com/rex3/rex4/rex5/1hh/rex5/2gg",
+        "https://q.com/rxa/p?sid=1&x=2", "https://q.com/rxb/p?sid=1&x=2",
     ];
 
     /// Operations of a preamble: executed by the controlling thread (no scheduling points) on the
@@ -443,6 +447,7 @@ mod sx {
             ("2x2-csp", vec![vec![Csp, Csp], vec![CspGh, Csp]]),
             ("2x2-redirect", vec![vec![Check(9), Check(10)], vec![Check(10), Check(9)]]),
             // the other entry points that take a shared reference
+            ("2x2-rewrite-regex", vec![vec![Check(28), Check(29)], vec![Check(29), Check(28)]]),
             ("2x2-subset", vec![vec![Subset(0, true, false), Check(8)], vec![Check(3), Subset(8, false, true)]]),
             ("2x2-serialize", vec![vec![Serialize, Check(0)], vec![Check(3), Serialize]]),
             ("2x2-debuginfo", vec![vec![DebugInfo, Check(0), TagExists], vec![Check(3), DebugInfo]]),
